@@ -19,7 +19,9 @@ var plrmOpCases = []struct{ prog, want string }{
 	{"1 2 exch", "2 1"}, {"1 dup", "1 1"}, {"1 2 pop", "1"}, {"1 2 3 2 copy", "1 2 3 2 3"}, {"1 2 3 0 copy", "1 2 3"},
 	{"1 2 3 0 index", "1 2 3 3"}, {"1 2 3 2 index", "1 2 3 1"},
 	{"(a) (b) (c) 3 -1 roll", "(b) (c) (a)"}, {"(a) (b) (c) 3 1 roll", "(c) (a) (b)"}, {"(a) (b) (c) 3 0 roll", "(a) (b) (c)"},
-	{"1 2 3 4 5 5 2 roll", "4 5 1 2 3"}, {"1 2 3 4 5 5 -7 roll", "3 4 5 1 2"},
+	{"1 2 3 4 5 5 2 roll", "4 5 1 2 3"}, {"1 2 3 3 -9223372036854775808 roll", "3 1 2"}, {"1 2 3 3 9223372036854775807 roll", "3 1 2"},
+	{"1 2 3 4 5 5 -9223372036854775808 roll", "4 5 1 2 3"}, {"1 2 3 4 5 5 9223372036854775807 roll", "4 5 1 2 3"}, {"1 2 3 4 5 6 6 -9223372036854775808 roll", "3 4 5 6 1 2"},
+	{"1 2 3 4 5 6 7 7 -9223372036854775808 roll", "2 3 4 5 6 7 1"}, {"1 2 3 3 -4 roll", "2 3 1"}, {"1 2 3 3 4 roll", "3 1 2"}, {"1 2 3 4 5 5 -7 roll", "3 4 5 1 2"},
 	{"1 2 3 count", "1 2 3 3"}, {"count", "0"}, {"1 mark 2 3 cleartomark", "1"}, {"mark", "-mark-"},
 	// arithmetic
 	{"3 4 add", "7"}, {"9.5 1.25 add", "10.75"}, {"3 4 sub", "-1"}, {"2 3.5 mul", "7"}, {"-3 abs", "3"}, {"-2.5 abs", "2.5"}, {"1 0.5 sub", "0.5"},
